@@ -288,9 +288,17 @@ def replay_socket_open(w, rec):
         wr.close()
         if wr.isOpen():
           bad.append('%s: wrapped socket still reports open after a failed open() and close()' % desc)
+      else:
+        if not wr.isOpen():
+          bad.append('%s: wrapped socket reports closed after a successful open()' % desc)
+        inner = s2.handle
+        wr.close()
+        if wr.isOpen() or s2.handle is not None or (inner is not None and not inner.closed):
+          bad.append('%s: close() of the wrapper left the inner socket open (the transport would go on reporting Open after Close())' % desc)
   finally:
     SS.gsocket = saved
   return bool(bad), '\n'.join(bad) or 'a failed open leaves the socket closed; a successful one holds a connected handle'
 
 
-REPLAYS['ScalesSocket.open'] = replay_socket_open
+for _u in ('ScalesSocket.open', 'ScalesSocket.close', 'VarzSocketWrapper.open', 'VarzSocketWrapper.close', 'VarzSocketWrapper.__init__'):
+  REPLAYS[_u] = replay_socket_open
